@@ -148,3 +148,39 @@ pub open spec fn tiles_in_tileset(tm: &TilemapData, ts: &Tileset, npixels: int) 
         ((#[trigger] tm.tiles.0[i]).id.0 as int + 1) * ((ts.tile_size.width as int) * (ts.tile_size.height as int)) <= npixels
 }
 // @end
+
+// @section layer_flags
+/// shim for the bitflags-generated LayerFlags (TRUSTED: `contains` is `(self & other) == other`, VISIBLE = 0x0001)
+#[derive(Clone, Copy)]
+pub struct LayerFlags { pub bits: u32 }
+impl LayerFlags {
+    pub const VISIBLE: LayerFlags = LayerFlags { bits: 1 };
+    pub fn contains(&self, other: LayerFlags) -> (r: bool)
+        ensures r == ((self.bits & other.bits) == other.bits),
+    {
+        (self.bits & other.bits) == other.bits
+    }
+}
+pub open spec fn visible_flag(f: LayerFlags) -> bool {
+    (f.bits & 1u32) == 1u32
+}
+/// C09: a layer is visible exactly when its own visible flag and the flags of all its ancestors are set
+pub open spec fn spec_visible(l: Seq<LayerData>, p: Seq<Option<u32>>, i: int) -> bool
+    decreases i,
+{
+    if 0 <= i < l.len() && i < p.len() {
+        visible_flag(l[i].flags) && match p[i] {
+            Some(q) => if 0 <= (q as int) < i { spec_visible(l, p, q as int) } else { true },
+            None => true,
+        }
+    } else {
+        true
+    }
+}
+// @end
+
+// @section rgba_only
+/// shim for image::Rgba<u8> (R4)
+#[derive(Clone, Copy, PartialEq, Eq)]
+pub struct Rgba<T>(pub [T; 4]);
+// @end
